@@ -6,8 +6,6 @@
 package gen
 
 import (
-	"encoding/asn1"
-	"io/fs"
 	"bytes"
 	"crypto/ecdsa"
 	"crypto/ed25519"
@@ -17,10 +15,12 @@ import (
 	"crypto/tls"
 	"crypto/x509"
 	"crypto/x509/pkix"
+	"encoding/asn1"
 	"errors"
 	"fmt"
 	ht "html/template"
 	"io"
+	"io/fs"
 	"math/big"
 	mrand "math/rand"
 	"os"
@@ -485,6 +485,24 @@ func (s *MsgSpec) Build(env *Env) (*mail.Msg, error) {
 				err = m.AttachReader(name, bytes.NewReader(f.Content), fo...)
 			} else {
 				err = m.EmbedReader(name, bytes.NewReader(f.Content), fo...)
+			}
+		case "reader-consumed", "sreader-consumed":
+			// a reader the caller has read the first bytes of already (sniffing a magic number): the file is what is left
+			prefix := []byte("%PDF-1.7 bytes the caller has consumed\n")
+			var rd io.Reader
+			if src == "reader-consumed" {
+				br := bytes.NewReader(append(append([]byte{}, prefix...), f.Content...))
+				_, _ = io.CopyN(io.Discard, br, int64(len(prefix)))
+				rd = br
+			} else {
+				sr := strings.NewReader(string(prefix) + string(f.Content))
+				_, _ = io.CopyN(io.Discard, sr, int64(len(prefix)))
+				rd = sr
+			}
+			if isAtt {
+				err = m.AttachReader(name, rd, fo...)
+			} else {
+				err = m.EmbedReader(name, rd, fo...)
 			}
 		case "readseeker":
 			var rs io.ReadSeeker = bytes.NewReader(f.Content)
